@@ -71,7 +71,7 @@ func (a argv) String() string {
 
 // opDesc is one operation of the (static) alphabet.
 type opDesc struct {
-	Recv   string // ro | sub0 | f0 | f1 | base (a change made directly on the base and on the twin, not through the wrapper)
+	Recv   string // ro | sub0 | f0 | f1 | base (a change made directly on the base and on the twin, not through the wrapper) | world (another instance comes into being, see worldLetters)
 	Method string
 	Args   []argv
 	Dst    string // slot receiving a returned File / VFS ("" if the method returns neither)
@@ -121,6 +121,7 @@ const (
 	clUnspec  = "unspecified"  // OpenFile with O_EXCL/O_SYNC but no write intent: POSIX leaves it open
 	clUnknown = "unclassified" // a method this driver does not know: only the base snapshot and panics are checked
 	clBase    = "base-side"    // not a call through the wrapper: a change made directly on the base (and on the twin), see baseLetters
+	clWorld   = "world-side"   // not a call on any pooled object: another read-only file system is created and used next to the one under test, see worldLetters
 )
 
 var vfsClass = map[string]string{
@@ -154,6 +155,10 @@ const writeIntent = os.O_WRONLY | os.O_RDWR | os.O_APPEND | os.O_CREATE | os.O_T
 func classOf(o opDesc) string {
 	if o.Recv == "base" {
 		return clBase
+	}
+
+	if o.Recv == "world" {
+		return clWorld
 	}
 
 	if o.Recv == "f0" || o.Recv == "f1" {
@@ -290,7 +295,13 @@ func vfsArgs(name string, mt reflect.Type, d domains) (tuples [][]argv, ok bool)
 			dirs = append(dirs, vol2Dir)
 		}
 
-		return each(dirs, st("t*")), true
+		// the pattern is not a path: every spelling of rawPatterns, in every directory
+		t := each(dirs, st("t*"))
+		for _, x := range tempPatterns(th) {
+			t = append(t, each(dirs, st(x))...)
+		}
+
+		return t, true
 	case "Glob":
 		pats := []string{"/d/*", "/*/*", "*", "/nope/*", "[", ""}
 		if d.subFS {
@@ -306,9 +317,21 @@ func vfsArgs(name string, mt reflect.Type, d domains) (tuples [][]argv, ok bool)
 			t = append(t, []argv{ps(x)})
 		}
 
+		// as written, under either OS type (rawPatterns)
+		for _, x := range globRaw(th, d.subFS) {
+			t = append(t, []argv{st(x)})
+		}
+
 		return t, true
 	case "Match":
-		return [][]argv{{ps("*"), ps("f")}, {ps("["), ps("f")}, {ps("a/*"), ps("a/b")}}, true
+		t := [][]argv{{ps("*"), ps("f")}, {ps("["), ps("f")}, {ps("a/*"), ps("a/b")}}
+
+		// as written, under either OS type (rawPatterns)
+		for _, x := range matchRaw(th) {
+			t = append(t, []argv{st(x[0]), st(x[1])})
+		}
+
+		return t, true
 	case "Rel":
 		t := [][]argv{{ps("/d"), ps("/d/e/g")}, {ps("/d"), ps("e")}, {ps("/d/e"), ps("/d")}}
 		if d.vol2 {
@@ -399,6 +422,58 @@ func vfsArgs(name string, mt reflect.Type, d domains) (tuples [][]argv, ok bool)
 	}
 
 	return genericArgs(mt, d)
+}
+
+// rawPatterns: string arguments that are NOT paths - the pattern of CreateTemp
+// and MkdirTemp, the patterns of Glob and Match.
+//
+// Lesson: the path operands of the alphabet are written once and spelled for
+// the OS type of the base, so every one of them is well formed for the file
+// system that receives it. A string that is not a path has no spelling: the
+// caller writes what he writes, and the characters that matter are the ones
+// the two OS types read differently - the backslash is a separator on a
+// Windows-typed file system and an ordinary character of a name (an escape in
+// a Match pattern) on a Linux-typed one; '/' is a separator for both but has no
+// business in the pattern of a temporary name - and the degenerate ones: the
+// empty pattern, a pattern that is nothing but '*'. Code that looks at such an
+// argument BEFORE deciding (a wrapper that lets "the base report the bad
+// pattern", a helper with its own idea of what a separator is) disagrees with
+// the base on exactly these. They are handed over as written (argument kind
+// str, never spelled) under either OS type: the mutating methods must refuse
+// every one of them with an error of the permission class and leave the base
+// alone, whatever the base would have said about the pattern; the read-only
+// ones must answer what the twin base answers.
+func tempPatterns(thorough bool) []string {
+	// "t*" (an ordinary pattern) is in the domain already
+	t := []string{"", "*", `t\*`, "a/t*"}
+	if thorough {
+		t = append(t, `\t`, "/t", `d\e\*.tmp`, "t*/", "**", `t*\`)
+	}
+
+	return t
+}
+
+func globRaw(thorough, sub bool) []string {
+	// a backslash before a separator, before a letter of a name that exists, at the end
+	t := []string{`/d\/*`, `/d/\f`, `\d\*`}
+	if sub {
+		t = []string{`/e\/*`, `/\f`, `\e\*`}
+	}
+
+	if thorough {
+		t = append(t, `*\`, `C:/d/*`, `\`)
+	}
+
+	return t
+}
+
+func matchRaw(thorough bool) [][2]string {
+	t := [][2]string{{`a\*`, "a*"}, {`a\*`, `a\b`}, {"", ""}, {"*", ""}, {`\`, "f"}}
+	if thorough {
+		t = append(t, [2]string{"*", `a\b`}, [2]string{"*", "a/b"}, [2]string{`a\\b`, `a\b`}, [2]string{"**", "f"})
+	}
+
+	return t
 }
 
 // noOps: the values with which a mutating call is documented (or bound) to
@@ -615,6 +690,43 @@ func baseLetters(d domains) []opDesc {
 		if d.vol2 {
 			l = append(l, opDesc{Recv: "base", Method: "WriteFile", Args: []argv{p(vol2File), data("www"), md(0o644)}})
 		}
+	}
+
+	return l
+}
+
+// World-side letters.
+//
+// Lesson: every system of an enumeration lives alone - one wrapper over one
+// base, built fresh for the history and dropped after it - while in a real
+// program instances COEXIST: a read-only view of a Windows-typed tree next to
+// one of a Linux-typed tree, views made by Sub next to the file system they
+// came from. State that ought to belong to the instance and does not (a
+// package-level value every constructor points to, a default that one
+// constructor rewrites for all, a cache keyed by something instances share)
+// behaves exactly like instance state as long as no second instance exists, so
+// no history on a single object can tell the difference. "Which other
+// instances exist, and when they were made" is a dimension of the alphabet like
+// any other: the letter world.NewRoFS(<base>) builds another base - of the
+// other OS type, and of the same - wraps it by the constructor under test and
+// uses it the way any instance is used (it changes its directory and its mask,
+// takes a view by Sub, opens a file, is refused a mutation). It may stand at
+// any position of a history: before everything, or between a handle being
+// opened and being used. The instance under test, its base and its twin are
+// not touched by the letter and are judged exactly as before: the base is
+// snapshotted around the letter, and every later call is held against the
+// same oracles - the refusals of the instance under test must stay of the
+// permission class of ITS OWN OS type, its reads must stay what its twin
+// answers.
+func worldLetters(d domains) []opDesc {
+	names := []string{"MemFS", "MemFS@Windows"}
+	if d.tier == "thorough" {
+		names = append(names, "OrefaFS", "OrefaFS@Windows")
+	}
+
+	var l []opDesc
+	for _, n := range names {
+		l = append(l, opDesc{Recv: "world", Method: "NewRoFS", Args: []argv{st(n)}})
 	}
 
 	return l
@@ -900,6 +1012,10 @@ func buildOps(base, tier string) (ops []opDesc, bad []string, info map[string]an
 	letters := baseLetters(dom(roPaths, false))
 	ops = append(ops, letters...)
 
+	// other instances coming into being next to the one under test
+	nOwn := len(ops)
+	ops = append(ops, worldLetters(dom(roPaths, false))...)
+
 	// spelled for the OS type of the base
 	sp := func(l []string) []string {
 		out := make([]string, len(l))
@@ -910,7 +1026,7 @@ func buildOps(base, tier string) (ops []opDesc, bad []string, info map[string]an
 		return out
 	}
 
-	for i := range ops {
+	for i := range ops[:nOwn] {
 		for j, a := range ops[i].Args {
 			switch a.K {
 			case "path", "pstr", "finfo":
@@ -939,7 +1055,7 @@ func buildOps(base, tier string) (ops []opDesc, bad []string, info map[string]an
 	}
 
 	// the base-side letters, and the questions asked around each of them: operations per receiver and method
-	var ls []string
+	var ls, ws []string
 
 	pr := map[string]int{}
 
@@ -948,12 +1064,20 @@ func buildOps(base, tier string) (ops []opDesc, bad []string, info map[string]an
 			ls = append(ls, o.String())
 		}
 
+		if o.Recv == "world" {
+			ws = append(ws, o.String())
+		}
+
 		if isProbe(o, tier) {
 			pr[o.Recv+"."+o.Method]++
 		}
 	}
 
 	info["base_side_letters"] = ls
+	info["world_side_letters"] = ws
+	info["temp_patterns_as_written"] = append([]string{"t*"}, tempPatterns(th)...)
+	info["glob_patterns_as_written"] = globRaw(th, false)
+	info["match_operands_as_written"] = matchRaw(th)
 	info["questions_asked_around_a_base_side_letter"] = pr
 
 	return ops, bad, info
